@@ -74,6 +74,20 @@ def load(report, crate, config="plain", crate_name=None, crate_dir=None):
     return Loaded(crate, config, c, failures, wall)
 
 
+def load_kf(report, modules):
+    """Known-finding corpus (witness/kf): `modules` maps a module name to the description of what it
+    demonstrates. A module that fails to compile is reported under the exact key `kf/<module>` (which
+    /verif/known_findings.jsonl may list); returns the set of modules that failed."""
+    kf_dir = os.path.join(WIT, "kf")
+    facts, failures, wall = build_with_skips(kf_dir, "wit_kf")
+    for mod, what in sorted(modules.items()):
+        report.count("known_finding_witnesses")
+        if mod in failures:
+            d = failures[mod][0]
+            report.add("W-compile", "kf/%s %s" % (mod, d.get("code") or "error"), "%s: %s %s" % (what, d.get("code") or "", d["message"][:140]))
+    return set(m for m in modules if m in failures)
+
+
 def load_repo_tests(report):
     """Thorough tier: the repository's own integration-test crate (tests/it, ~110 entrait invocations, built
     in test mode with the unimock feature and the real mockall / async-trait / feignhttp) as an additional
